@@ -884,8 +884,11 @@ def witness_reassign(ctx):
 
 def run(ctx):
     rng = ctx.rng
-    witnesses(ctx)
-    witness_reassign(ctx)
+    for wfn in (witnesses, witness_reassign):
+        try: wfn(ctx)
+        except Exception as e:
+            ctx.violation('a fixed minimal program of the check (%s) raised %s on this tree: %s' % (wfn.__name__, type(e).__name__, str(e)[:160]),
+                          {'program': wfn.__name__}, observed=type(e).__name__, expected='completes', key='witness-raised:%s:%s' % (wfn.__name__, type(e).__name__))
     work = ponyutil.workdir('c23')
     base = os.path.join(work, 'base.sqlite')
     try:
